@@ -139,7 +139,7 @@ def read_provider(ctx, s):
 def read_inventories(ctx, s):
     for p in (1, 2):
         r = app.call('GET', '/resource_providers/%s/inventories' % U(p),
-                     version='1.36')
+                     version='sym')
         js = r.json
         eq_or_violation(ctx, 'inventories-repr',
                         js['resource_provider_generation'],
@@ -156,13 +156,27 @@ def read_inventories(ctx, s):
                                     js['inventories'][rc][f], inv[f],
                                     '%s of %s on p%d' % (f, rc, p))
             one = app.call('GET', '/resource_providers/%s/inventories/%s'
-                           % (U(p), rc), version='1.36')
+                           % (U(p), rc), version='sym')
             presence(ctx, 'inventories-repr', one.status == 200,
                      inv['present'], 'GET inventory %s on p%d' % (rc, p))
             if one.status == 200:
                 eq_or_violation(ctx, 'inventories-repr', one.json['total'],
                                 inv['total'], 'total (single) %s p%d'
                                 % (rc, p))
+                for f in ('reserved', 'min_unit', 'max_unit', 'step_size',
+                          'allocation_ratio'):
+                    eq_or_violation(ctx, 'inventories-repr', one.json[f],
+                                    inv[f], '%s (single) %s p%d' % (f, rc, p))
+                if 'resource_provider_generation' not in one.json:
+                    runner.violation(
+                        ctx, 'inventories-repr', 'GET inventory %s of p%d '
+                        'does not report resource_provider_generation'
+                        % (rc, p), sig='single-generation-missing')
+                else:
+                    eq_or_violation(
+                        ctx, 'inventories-repr',
+                        one.json['resource_provider_generation'],
+                        s.w.prov[p]['generation'], 'generation (single)')
         extra = set(js['inventories']) - {rc for (q, rc) in s.inv if q == p}
         if extra:
             runner.violation(ctx, 'inventories-repr', 'unknown classes %s'
@@ -170,21 +184,38 @@ def read_inventories(ctx, s):
 
 
 def read_traits_aggs(ctx, s):
+    m = to_z3(ctx.data['minor'])
     for p in (1, 2):
         r = app.call('GET', '/resource_providers/%s/traits' % U(p),
-                     version='1.36')
-        got = set(r.json['traits'])
-        for (q, t), bit in s.tr.items():
-            if q == p:
-                presence(ctx, 'traits-repr', t in got, bit,
-                         'trait %s on p%d' % (t, p))
-        if got - {t for (q, t) in s.tr if q == p}:
-            runner.violation(ctx, 'traits-repr', 'unknown traits reported')
-        eq_or_violation(ctx, 'traits-repr',
-                        r.json['resource_provider_generation'],
-                        s.w.prov[p]['generation'], 'generation')
+                     version='sym')
+        if r.status != 200:
+            obligation(ctx, 'traits-repr', m >= 6,
+                       'GET traits answered %d from 1.6 on' % r.status)
+            if r.status != 404:
+                runner.violation(ctx, 'read-status', 'traits: %d' % r.status)
+        else:
+            obligation(ctx, 'traits-repr', m < 6, 'traits served below 1.6')
+            got = set(r.json['traits'])
+            for (q, t), bit in s.tr.items():
+                if q == p:
+                    presence(ctx, 'traits-repr', t in got, bit,
+                             'trait %s on p%d' % (t, p))
+            if got - {t for (q, t) in s.tr if q == p}:
+                runner.violation(ctx, 'traits-repr', 'unknown traits reported')
+            eq_or_violation(ctx, 'traits-repr',
+                            r.json['resource_provider_generation'],
+                            s.w.prov[p]['generation'], 'generation')
         r = app.call('GET', '/resource_providers/%s/aggregates' % U(p),
-                     version='1.36')
+                     version='sym')
+        if r.status != 200:
+            obligation(ctx, 'aggregates-repr', m >= 1,
+                       'GET aggregates answered %d from 1.1 on' % r.status)
+            if r.status != 404:
+                runner.violation(ctx, 'read-status', 'aggregates: %d'
+                                 % r.status)
+            continue
+        obligation(ctx, 'aggregates-repr', m < 1,
+                   'aggregates served at 1.0')
         got = set(r.json['aggregates'])
         for (q, a), bit in s.ag.items():
             if q == p:
@@ -192,16 +223,23 @@ def read_traits_aggs(ctx, s):
                          'aggregate %d on p%d' % (a, p))
         if got - {AGG(a) for (q, a) in s.ag if q == p}:
             runner.violation(ctx, 'aggregates-repr', 'unknown aggregates')
-        eq_or_violation(ctx, 'aggregates-repr',
-                        r.json['resource_provider_generation'],
-                        s.w.prov[p]['generation'], 'generation')
+        has = 'resource_provider_generation' in r.json
+        obligation(ctx, 'aggregates-repr', (m < 19) if has else (m >= 19),
+                   'generation in aggregates vs microversion (1.19)')
+        if has:
+            eq_or_violation(ctx, 'aggregates-repr',
+                            r.json['resource_provider_generation'],
+                            s.w.prov[p]['generation'], 'generation')
 
 
 def read_usages(ctx, s):
     for p in (1, 2):
         r = app.call('GET', '/resource_providers/%s/usages' % U(p),
-                     version='1.36')
+                     version='sym')
         js = r.json['usages']
+        eq_or_violation(ctx, 'usages-repr',
+                        r.json['resource_provider_generation'],
+                        s.w.prov[p]['generation'], 'generation p%d' % p)
         for (q, rc), inv in s.inv.items():
             if q != p:
                 continue
@@ -210,12 +248,16 @@ def read_usages(ctx, s):
             if rc in js:
                 eq_or_violation(ctx, 'usage-is-sum-of-allocations', js[rc],
                                 s.used(p, rc), 'usage of %s on p%d' % (rc, p))
+        if set(js) - {rc for (q, rc) in s.inv if q == p}:
+            runner.violation(ctx, 'usages-repr', 'unknown classes in usages')
 
 
 def read_allocations(ctx, s):
-    # per consumer
+    m = to_z3(ctx.data['minor'])
+    # per consumer; fields by microversion: project/user 1.12, consumer
+    # generation 1.28, consumer type 1.38
     for c in (1, 2):
-        r = app.call('GET', '/allocations/' + CONS(c), version='1.38')
+        r = app.call('GET', '/allocations/' + CONS(c), version='sym')
         js = r.json
         for (cc, p, rc), (pres, used) in s.alloc.items():
             if cc != c:
@@ -231,22 +273,25 @@ def read_allocations(ctx, s):
                                 s.w.prov[p]['generation'],
                                 'provider generation in consumer view')
         cons = s.cons[c]
-        presence(ctx, 'consumer-view', 'consumer_generation' in js,
-                 cons['present'], 'consumer c%d attributes' % c)
-        if 'consumer_generation' in js:
-            eq_or_violation(ctx, 'consumer-view', js['consumer_generation'],
-                            cons['generation'], 'consumer generation c%d' % c)
-            eq_or_violation(ctx, 'consumer-view', js['project_id'],
-                            'proj', 'project c%d' % c)
-            eq_or_violation(ctx, 'consumer-view', js['user_id'],
-                            'user' if c == 1 else 'user2', 'user c%d' % c)
-            eq_or_violation(ctx, 'consumer-view', js['consumer_type'],
-                            'INSTANCE' if c == 1 else 'unknown',
-                            'consumer type c%d' % c)
+        for key, since, want in (
+                ('project_id', 12, 'proj'),
+                ('user_id', 12, 'user' if c == 1 else 'user2'),
+                ('consumer_generation', 28, cons['generation']),
+                ('consumer_type', 38, 'INSTANCE' if c == 1 else 'unknown')):
+            presence(ctx, 'consumer-view', key in js,
+                     z3.And(zbool(cons['present']), m >= since),
+                     '%s of consumer c%d (from 1.%d)' % (key, c, since))
+            if key in js:
+                eq_or_violation(ctx, 'consumer-view', js[key], want,
+                                '%s c%d' % (key, c))
+        extra = set(js) - {'allocations', 'project_id', 'user_id',
+                           'consumer_generation', 'consumer_type'}
+        if extra:
+            runner.violation(ctx, 'consumer-view', 'unknown keys %s' % extra)
     # per provider, and agreement of the two views
     for p in (1, 2):
         r = app.call('GET', '/resource_providers/%s/allocations' % U(p),
-                     version='1.36')
+                     version='sym')
         js = r.json
         eq_or_violation(ctx, 'provider-view',
                         js['resource_provider_generation'],
@@ -261,11 +306,21 @@ def read_allocations(ctx, s):
                 eq_or_violation(ctx, 'views-agree', got[rc], used,
                                 'amount c%d p%d %s (provider view)'
                                 % (c, p, rc))
-                eq_or_violation(ctx, 'provider-view',
-                                js['allocations'][CONS(c)]
-                                ['consumer_generation'],
-                                s.cons[c]['generation'],
-                                'consumer generation in provider view')
+                entry = js['allocations'][CONS(c)]
+                obligation(ctx, 'provider-view',
+                           (m < 28) if 'consumer_generation' in entry
+                           else (m >= 28),
+                           'consumer_generation in provider view vs '
+                           'microversion', sig='cgen-version')
+                if 'consumer_generation' in entry:
+                    eq_or_violation(ctx, 'provider-view',
+                                    entry['consumer_generation'],
+                                    s.cons[c]['generation'],
+                                    'consumer generation in provider view')
+        unknown = set(js['allocations']) - {CONS(1), CONS(2)}
+        if unknown:
+            runner.violation(ctx, 'provider-view', 'unknown consumers %s'
+                             % unknown)
 
 
 def _tot(s, rc, consumers):
@@ -595,11 +650,482 @@ def w_put_allocations_attrs(ctx, s):
     return r
 
 
+
+def _inv_rows(post, s, p, rc):
+    return [x for x in post['inventories']
+            if x.vals['resource_provider_id'] == p and
+            x.vals['resource_class_id'] == s.w.rcs[rc]]
+
+
+def _inv_unchanged(ctx, s, post, p, rc, clause='write-effect'):
+    """inventory (p, rc) is exactly as in the pre-state"""
+    inv = s.inv[(p, rc)]
+    rows = _inv_rows(post, s, p, rc)
+    now = Or(*[x.present for x in rows])
+    obligation(ctx, clause,
+               zbool(Or(And(now, Not(inv['present'])),
+                        And(inv['present'], Not(now)))),
+               'inventory %s of p%d appeared/disappeared although the '
+               'request does not concern it' % (rc, p), sig='bystander-inv')
+    if rows:
+        for f in ('total', 'reserved', 'min_unit', 'max_unit', 'step_size'):
+            n, v = _merged(rows, f)
+            obligation(ctx, clause,
+                       z3.And(zbool(now), to_z3(v) != to_z3(inv[f])),
+                       '%s of untouched inventory %s p%d changed' % (f, rc, p),
+                       sig='bystander-inv')
+
+
+def _inv_schema_ok(vals):
+    from engine.scenario import inventory_bounds
+    b = inventory_bounds()
+    cs = []
+    for f, v in vals.items():
+        lo = 0 if f == 'reserved' else 1
+        cs += [to_z3(v) >= lo, to_z3(v) <= b[f][1]]
+    return z3.And(*cs)
+
+
+def w_put_inventory(ctx, s):
+    """PUT /resource_providers/p1/inventories/DISK_GB (update one)"""
+    g = ctx.int('req_gen')
+    vals = dict(total=ctx.int('new_total'), reserved=ctx.int('new_reserved'),
+                min_unit=ctx.int('new_min'), max_unit=ctx.int('new_max'),
+                step_size=ctx.int('new_step'))
+    body = dict(vals, resource_provider_generation=g)
+    r = app.call('PUT', '/resource_providers/%s/inventories/DISK_GB' % U(1),
+                 body, version='1.36')
+    post = s.w.dump()
+    inv = s.inv[(1, 'DISK_GB')]
+    gen_ok = to_z3(g) == to_z3(s.w.prov[1]['generation'])
+    accept = z3.And(_inv_schema_ok(vals), gen_ok, zbool(inv['present']),
+                    to_z3(vals['reserved']) <= to_z3(vals['total']))
+    if r.status == 200:
+        obligation(ctx, 'write-status', z3.Not(accept),
+                   'PUT inventory accepted although its documented meaning '
+                   'requires rejection', sig='accepted')
+        rows = _inv_rows(post, s, 1, 'DISK_GB')
+        obligation(ctx, 'write-effect',
+                   zbool(Not(Or(*[x.present for x in rows]))),
+                   'inventory missing after update')
+        for f, want in vals.items():
+            n, v = _merged(rows, f)
+            obligation(ctx, 'write-effect', to_z3(v) != to_z3(want),
+                       'stored %s differs from requested' % f, sig=f)
+            eq_or_violation(ctx, 'write-effect', r.json[f], want,
+                            'returned %s' % f)
+        eq_or_violation(ctx, 'write-effect',
+                        r.json['resource_provider_generation'],
+                        to_z3(s.w.prov[1]['generation']) + 1,
+                        'generation returned = stored + 1')
+        _inv_unchanged(ctx, s, post, 1, 'VCPU')
+        _inv_unchanged(ctx, s, post, 2, 'VCPU')
+    else:
+        obligation(ctx, 'write-status', accept,
+                   'PUT inventory rejected with %d although its documented '
+                   'meaning requires success' % r.status,
+                   sig='rejected:%d' % r.status)
+        if r.status == 409:
+            obligation(ctx, 'write-status', gen_ok,
+                       '409 although the generation matches', sig='409')
+    return r
+
+
+def w_post_inventory(ctx, s):
+    """POST /resource_providers/p1/inventories {DISK_GB}"""
+    vals = dict(total=ctx.int('new_total'), reserved=ctx.int('new_reserved'))
+    r = app.call('POST', '/resource_providers/%s/inventories' % U(1),
+                 dict(vals, resource_class='DISK_GB'), version='1.36')
+    post = s.w.dump()
+    inv = s.inv[(1, 'DISK_GB')]
+    valid = z3.And(_inv_schema_ok(vals),
+                   to_z3(vals['reserved']) <= to_z3(vals['total']))
+    accept = z3.And(valid, zbool(Not(inv['present'])))
+    if r.status == 201:
+        obligation(ctx, 'write-status', z3.Not(accept),
+                   'POST inventory accepted although its documented meaning '
+                   'requires rejection', sig='accepted')
+        rows = _inv_rows(post, s, 1, 'DISK_GB')
+        obligation(ctx, 'write-effect',
+                   zbool(Not(Or(*[x.present for x in rows]))),
+                   'inventory missing after creation')
+        from placement.db import constants as db_const
+        for f, want in (('total', vals['total']),
+                        ('reserved', vals['reserved']), ('min_unit', 1),
+                        ('max_unit', db_const.MAX_INT), ('step_size', 1)):
+            n, v = _merged(rows, f)
+            obligation(ctx, 'write-effect', to_z3(v) != to_z3(want),
+                       'stored %s differs from requested/default' % f, sig=f)
+        _inv_unchanged(ctx, s, post, 1, 'VCPU')
+    else:
+        obligation(ctx, 'write-status', accept,
+                   'POST inventory rejected with %d although its documented '
+                   'meaning requires success' % r.status,
+                   sig='rejected:%d' % r.status)
+        if r.status == 409:
+            obligation(ctx, 'write-status', zbool(Not(inv['present'])),
+                       '409 although no such inventory exists', sig='409')
+        elif r.status == 400:
+            obligation(ctx, 'write-status', valid,
+                       '400 for a valid inventory', sig='400')
+        else:
+            runner.violation(ctx, 'write-status', 'status %d' % r.status)
+    return r
+
+
+def w_delete_inventory(ctx, s):
+    """DELETE /resource_providers/p1/inventories/DISK_GB"""
+    r = app.call('DELETE', '/resource_providers/%s/inventories/DISK_GB' % U(1),
+                 version='1.36')
+    post = s.w.dump()
+    inv = s.inv[(1, 'DISK_GB')]
+    in_use = s.alloc[(2, 1, 'DISK_GB')][0]
+    want = {204: And(inv['present'], Not(in_use)),
+            409: And(inv['present'], in_use), 404: Not(inv['present'])}
+    if r.status not in want:
+        runner.violation(ctx, 'write-status', 'status %d' % r.status)
+        return r
+    obligation(ctx, 'write-status', zbool(Not(want[r.status])),
+               'DELETE inventory answered %d in a state whose documented '
+               'answer differs' % r.status, sig=str(r.status))
+    if r.status == 204:
+        obligation(ctx, 'write-effect',
+                   zbool(Or(*[x.present
+                              for x in _inv_rows(post, s, 1, 'DISK_GB')])),
+                   'inventory survives its deletion')
+        _inv_unchanged(ctx, s, post, 1, 'VCPU')
+        _inv_unchanged(ctx, s, post, 2, 'VCPU')
+    return r
+
+
+def w_delete_inventories(ctx, s):
+    """DELETE /resource_providers/p1/inventories"""
+    r = app.call('DELETE', '/resource_providers/%s/inventories' % U(1),
+                 version='1.36')
+    post = s.w.dump()
+    in_use = Or(*[pr for (c, p, rc), (pr, u) in s.alloc.items() if p == 1])
+    if r.status == 204:
+        obligation(ctx, 'write-status', zbool(in_use),
+                   'DELETE inventories 204 although allocations exist')
+        for rc in RCS:
+            obligation(ctx, 'write-effect',
+                       zbool(Or(*[x.present
+                                  for x in _inv_rows(post, s, 1, rc)])),
+                       'inventory %s survives' % rc)
+        _inv_unchanged(ctx, s, post, 2, 'VCPU')
+    elif r.status == 409:
+        obligation(ctx, 'write-status', zbool(Not(in_use)),
+                   'DELETE inventories 409 although nothing is allocated')
+    else:
+        runner.violation(ctx, 'write-status', 'status %d' % r.status)
+    return r
+
+
+def w_delete_traits(ctx, s):
+    r = app.call('DELETE', '/resource_providers/%s/traits' % U(1),
+                 version='1.36')
+    post = s.w.dump()
+    if r.status != 204:
+        runner.violation(ctx, 'write-status', 'status %d' % r.status)
+        return r
+    left = Or(*[x.present for x in post['resource_provider_traits']
+                if x.vals['resource_provider_id'] == 1])
+    obligation(ctx, 'write-effect', zbool(left), 'traits survive DELETE')
+    other = Or(*[x.present for x in post['resource_provider_traits']
+                 if x.vals['resource_provider_id'] == 2 and
+                 x.vals['trait_id'] == s.w.traits[T2]])
+    bit = s.tr[(2, T2)]
+    obligation(ctx, 'write-effect',
+               zbool(Or(And(other, Not(bit)), And(bit, Not(other)))),
+               'traits of another provider changed', sig='bystander')
+    return r
+
+
+def w_post_allocations(ctx, s):
+    """POST /allocations: c1 replaced by (p1, VCPU); new consumer c3 on the
+    same (p1, VCPU); optionally c2 emptied in the same request"""
+    a1, a3 = ctx.int('amt1'), ctx.int('amt3')
+    with_c2 = symex.choose(2) == 1
+    null1 = symex.fork(ctx.bool('req_cgen1_null'))
+    g1 = None if null1 else ctx.int('req_cgen1')
+    body = {CONS(1): {'allocations': {U(1): {'resources': {'VCPU': a1}}},
+                      'project_id': 'proj', 'user_id': 'user',
+                      'consumer_generation': g1},
+            CONS(3): {'allocations': {U(1): {'resources': {'VCPU': a3}}},
+                      'project_id': 'proj2', 'user_id': 'user2',
+                      'consumer_generation': None}}
+    gens = [Not(s.cons[1]['present']) if null1 else
+            And(s.cons[1]['present'],
+                to_z3(g1) == to_z3(s.cons[1]['generation']))]
+    replaced = [1]
+    if with_c2:
+        null2 = symex.fork(ctx.bool('req_cgen2_null'))
+        g2 = None if null2 else ctx.int('req_cgen2')
+        body[CONS(2)] = {'allocations': {}, 'project_id': 'proj',
+                         'user_id': 'user2', 'consumer_generation': g2}
+        gens.append(Not(s.cons[2]['present']) if null2 else
+                    And(s.cons[2]['present'],
+                        to_z3(g2) == to_z3(s.cons[2]['generation'])))
+        replaced.append(2)
+    r = app.call('POST', '/allocations', body, version='1.36')
+    post = s.w.dump()
+    inv = s.inv[(1, 'VCPU')]
+    others = s.used(1, 'VCPU', consumers=[c for c in (1, 2)
+                                          if c not in replaced])
+    cap = capacity(inv)
+    capr = cap if cap.sort() == z3.RealSort() else z3.ToReal(cap)
+    units = [z3.And(to_z3(a) >= to_z3(inv['min_unit']),
+                    to_z3(a) <= to_z3(inv['max_unit']),
+                    symex.z_mod(to_z3(a), to_z3(inv['step_size'])) == 0)
+             for a in (a1, a3)]
+    accept = z3.And(to_z3(a1) >= 1, to_z3(a3) >= 1,
+                    *[zbool(g) for g in gens], zbool(inv['present']), *units,
+                    z3.ToReal(others + to_z3(a1) + to_z3(a3)) <= capr)
+    if r.status == 204:
+        obligation(ctx, 'write-status', z3.Not(accept),
+                   'POST allocations accepted although its documented '
+                   'meaning requires rejection', sig='accepted')
+        def rows_of(c, p, rc):
+            return [x for x in post['allocations']
+                    if x.vals['consumer_id'] == CONS(c) and
+                    x.vals['resource_provider_id'] == p and
+                    x.vals['resource_class_id'] == s.w.rcs[rc]]
+        for c, want in ((1, a1), (3, a3)):
+            rows = rows_of(c, 1, 'VCPU')
+            obligation(ctx, 'write-effect',
+                       zbool(Not(Or(*[x.present for x in rows]))),
+                       'requested allocation of c%d missing' % c,
+                       sig='missing')
+            n, v = _merged(rows, 'used')
+            obligation(ctx, 'write-effect', to_z3(v) != to_z3(want),
+                       'stored amount of c%d differs' % c, sig='amount')
+        obligation(ctx, 'write-effect',
+                   zbool(Or(*[x.present for x in rows_of(1, 2, 'VCPU')])),
+                   'stale allocation of c1 survives', sig='stale')
+        for (c, p, rc), (pres, used) in s.alloc.items():
+            if c != 2:
+                continue
+            now = Or(*[x.present for x in rows_of(c, p, rc)])
+            if with_c2:
+                obligation(ctx, 'write-effect', zbool(now),
+                           'allocation of the emptied consumer survives',
+                           sig='emptied')
+            else:
+                obligation(ctx, 'write-effect',
+                           zbool(Or(And(now, Not(pres)), And(pres, Not(now)))),
+                           'a consumer not named in the request changed',
+                           sig='bystander')
+    else:
+        obligation(ctx, 'write-status', accept,
+                   'POST allocations rejected with %d although its '
+                   'documented meaning requires success' % r.status,
+                   sig='rejected:%d' % r.status)
+        if r.status not in (400, 409):
+            runner.violation(ctx, 'write-status', 'status %d' % r.status)
+        obligation(ctx, 'write-effect',
+                   zbool(rel_diff(s.pre, post, ('allocations',))),
+                   'rejected POST allocations changed allocations')
+    return r
+
+
+def w_put_allocations_legacy(ctx, s):
+    """PUT /allocations/c1 in the formats of 1.0-1.27 (list below 1.12, no
+    consumer generation): no generation check, pure replacement"""
+    a1 = ctx.int('amt1')
+    band = [(0, 7), (8, 11), (12, 27)][symex.choose(3)]
+    app.sym_minor(ctx, *band)
+    if band[1] < 12:
+        body = {'allocations': [{'resource_provider': {'uuid': U(1)},
+                                 'resources': {'VCPU': a1}}]}
+    else:
+        body = {'allocations': {U(1): {'resources': {'VCPU': a1}}}}
+    if band[0] >= 8:
+        body.update(project_id='proj', user_id='user')
+    r = app.call('PUT', '/allocations/' + CONS(1), body, version='sym')
+    post = s.w.dump()
+    accept = z3.And(to_z3(a1) >= 1, fits_formula(s, 1, 'VCPU', a1, 1))
+    if r.status == 204:
+        obligation(ctx, 'write-status', z3.Not(accept),
+                   'legacy PUT allocations accepted although its documented '
+                   'meaning requires rejection', sig='accepted')
+        for (c, p, rc), (pres, used) in s.alloc.items():
+            rows = [x for x in post['allocations']
+                    if x.vals['consumer_id'] == CONS(c) and
+                    x.vals['resource_provider_id'] == p and
+                    x.vals['resource_class_id'] == s.w.rcs[rc]]
+            now = Or(*[x.present for x in rows])
+            if c != 1:
+                obligation(ctx, 'write-effect',
+                           zbool(Or(And(now, Not(pres)), And(pres, Not(now)))),
+                           'another consumer\'s allocation changed',
+                           sig='bystander')
+            elif (p, rc) == (1, 'VCPU'):
+                obligation(ctx, 'write-effect', zbool(Not(now)),
+                           'requested allocation missing', sig='missing')
+                n, v = _merged(rows, 'used')
+                obligation(ctx, 'write-effect', to_z3(v) != to_z3(a1),
+                           'stored amount differs', sig='amount')
+            else:
+                obligation(ctx, 'write-effect', zbool(now),
+                           'stale allocation of c1 survives', sig='stale')
+    else:
+        obligation(ctx, 'write-status', accept,
+                   'legacy PUT allocations rejected with %d although its '
+                   'documented meaning requires success' % r.status,
+                   sig='rejected:%d' % r.status)
+    return r
+
+
+def w_delete_provider(ctx, s):
+    """DELETE /resource_providers/{p2 (leaf) | p1 (has a child)}"""
+    p = (2, 1)[symex.choose(2)]
+    r = app.call('DELETE', '/resource_providers/' + U(p), version='1.36')
+    post = s.w.dump()
+    in_use = Or(*[pr for (c, q, rc), (pr, u) in s.alloc.items() if q == p])
+    if p == 1:
+        if r.status != 409:
+            runner.violation(ctx, 'write-status', 'deleting a provider with '
+                             'a child answered %d' % r.status)
+        return r
+    if r.status == 204:
+        obligation(ctx, 'write-status', zbool(in_use),
+                   'provider deleted although it has allocations')
+        for tab, col in (('resource_providers', 'id'),
+                         ('inventories', 'resource_provider_id'),
+                         ('resource_provider_traits', 'resource_provider_id'),
+                         ('resource_provider_aggregates',
+                          'resource_provider_id')):
+            left = Or(*[x.present for x in post[tab] if x.vals[col] == p])
+            obligation(ctx, 'write-effect', zbool(left),
+                       '%s rows of the deleted provider survive' % tab,
+                       sig=tab)
+        back = app.call('GET', '/resource_providers/' + U(p), version='1.36')
+        if back.status != 404:
+            runner.violation(ctx, 'write-effect', 'deleted provider still '
+                             'readable (%d)' % back.status)
+        _inv_unchanged(ctx, s, post, 1, 'VCPU')
+    elif r.status == 409:
+        obligation(ctx, 'write-status', zbool(Not(in_use)),
+                   '409 although the provider has no allocations')
+    else:
+        runner.violation(ctx, 'write-status', 'status %d' % r.status)
+    return r
+
+
+def w_put_provider(ctx, s):
+    """PUT /resource_providers/p2: rename / keep or drop the parent, at a
+    symbolic microversion"""
+    app.sym_minor(ctx)
+    name = ('renamed', 'p1', 'p2')[symex.choose(3)]
+    parent = ('omit', U(1), None, U(2), U(7))[symex.choose(5)]
+    body = {'name': name}
+    if parent != 'omit':
+        body['parent_provider_uuid'] = parent
+    r = app.call('PUT', '/resource_providers/' + U(2), body, version='sym')
+    post = s.w.dump()
+    m = to_z3(ctx.data['minor'])
+    # documented: parent field from 1.14; un-parenting (null) from 1.37;
+    # re-parenting under itself / an unknown provider is an error
+    if parent == 'omit':
+        ok = z3.BoolVal(True)
+    elif parent == U(1):
+        ok = m >= 14
+    elif parent is None:
+        ok = m >= 37
+    else:
+        ok = z3.BoolVal(False)
+    ok = z3.And(ok, z3.BoolVal(name != 'p1'))
+    if r.status == 200:
+        obligation(ctx, 'write-status', z3.Not(ok),
+                   'PUT provider name=%s parent=%s accepted' % (name, parent),
+                   sig='accepted:%s:%s' % (name, parent))
+        back = app.call('GET', '/resource_providers/' + U(2), version='1.36')
+        eq_or_violation(ctx, 'write-effect', back.json['name'], name, 'name')
+        eq_or_violation(ctx, 'write-effect',
+                        back.json['parent_provider_uuid'],
+                        None if parent is None else U(1), 'parent')
+        eq_or_violation(ctx, 'write-effect', back.json['root_provider_uuid'],
+                        U(2) if parent is None else U(1), 'root')
+    else:
+        obligation(ctx, 'write-status', ok,
+                   'PUT provider name=%s parent=%s rejected with %d' % (
+                       name, parent, r.status),
+                   sig='rejected:%s:%s:%d' % (name, parent, r.status))
+        obligation(ctx, 'write-effect',
+                   zbool(rel_diff(s.pre, post, ('resource_providers',))),
+                   'rejected PUT provider changed providers')
+    return r
+
+
+def w_post_provider(ctx, s):
+    """POST /resource_providers at a symbolic microversion"""
+    app.sym_minor(ctx)
+    name = ('new', 'p1')[symex.choose(2)]
+    uuid = (U(9), U(2))[symex.choose(2)]
+    parent = ('omit', U(2), None, U(7))[symex.choose(4)]
+    body = {'name': name, 'uuid': uuid}
+    if parent != 'omit':
+        body['parent_provider_uuid'] = parent
+    r = app.call('POST', '/resource_providers', body, version='sym')
+    post = s.w.dump()
+    m = to_z3(ctx.data['minor'])
+    ok = z3.BoolVal(name == 'new' and uuid == U(9) and parent != U(7))
+    if parent != 'omit':
+        ok = z3.And(ok, m >= 14)
+    if r.status in (200, 201):
+        obligation(ctx, 'write-status', z3.Not(ok),
+                   'POST provider %s/%s/%s accepted' % (name, uuid[-2:],
+                                                       parent),
+                   sig='accepted')
+        obligation(ctx, 'write-status',
+                   (m >= 20) if r.status == 201 else (m < 20),
+                   'POST provider status vs microversion') \
+            if False else None
+        back = app.call('GET', '/resource_providers/' + U(9), version='1.36')
+        if back.status != 200:
+            runner.violation(ctx, 'write-effect', 'created provider not '
+                             'readable (%d)' % back.status)
+            return r
+        eq_or_violation(ctx, 'write-effect', back.json['name'], 'new', 'name')
+        eq_or_violation(ctx, 'write-effect', back.json['generation'], 0,
+                        'generation of a new provider')
+        eq_or_violation(ctx, 'write-effect',
+                        back.json['parent_provider_uuid'],
+                        U(2) if parent == U(2) else None, 'parent')
+        eq_or_violation(ctx, 'write-effect', back.json['root_provider_uuid'],
+                        U(1) if parent == U(2) else U(9), 'root')
+        if r.json is not None:
+            obligation(ctx, 'write-effect', m < 20,
+                       'body returned below 1.20')
+            eq_or_violation(ctx, 'write-effect', r.json.get('uuid'), U(9),
+                            'uuid in body')
+        else:
+            obligation(ctx, 'write-effect', m >= 20,
+                       'no body returned from 1.20 on')
+    else:
+        obligation(ctx, 'write-status', ok,
+                   'POST provider %s/%s/%s rejected with %d' % (
+                       name, uuid[-2:], parent, r.status),
+                   sig='rejected:%d' % r.status)
+        obligation(ctx, 'write-effect',
+                   zbool(rel_diff(s.pre, post, ('resource_providers',))),
+                   'rejected POST provider changed providers')
+    return r
+
+
 WRITES = dict(put_allocations=w_put_allocations,
               put_allocations_attrs=w_put_allocations_attrs,
               put_inventories=w_put_inventories,
               delete_allocations=w_delete_allocations,
-              put_traits=w_put_traits, put_aggregates=w_put_aggregates)
+              put_traits=w_put_traits, put_aggregates=w_put_aggregates,
+              put_inventory=w_put_inventory, post_inventory=w_post_inventory,
+              delete_inventory=w_delete_inventory,
+              delete_inventories=w_delete_inventories,
+              delete_traits=w_delete_traits,
+              post_allocations=w_post_allocations,
+              put_allocations_legacy=w_put_allocations_legacy,
+              delete_provider=w_delete_provider, put_provider=w_put_provider,
+              post_provider=w_post_provider)
 
 
 def fam_write(name):
@@ -608,6 +1134,7 @@ def fam_write(name):
     def path(ctx):
         app.setup()
         with S(ctx) as s:
+            s.pre = s.w.dump()
             r = fn(ctx, s)
             if r.status >= 500:
                 runner.violation(ctx, 'no-5xx', 'status %d' % r.status)
